@@ -51,7 +51,7 @@ ASSUMPTIONS = [
     "quarter files are processed chronologically (year, quarter) - PMS / upstream package managers",
     "a name that was a move source takes no further commands (moves and slotmoves) - the redundancy clause",
 ]
-BUDGET = {"quick": 50, "thorough": 900}
+BUDGET = {"quick": 50, "thorough": 800}
 
 NAMES = ["c/a", "c/b", "c/c", "d/a", "d/e", "e/f-g"]
 QUARTERS = [f"{q}Q-{y}" for y in (2018, 2019, 2020, 2021) for q in (1, 2, 3, 4)]
@@ -298,14 +298,20 @@ def _fmt(d):
 def plan(tier, seed):
     if tier == "quick":
         return [{"task": "gen", "examples": 1000} for _ in range(16)]
-    return [{"task": "gen", "examples": 60000} for _ in range(16)]
+    return [{"task": "gen", "examples": 30000} for _ in range(16)]
 
 
 def run_task(ctx, task, **kw):
     if task != "gen":
         raise core.HarnessError(f"unknown task {task}")
     env = Env(ctx)
-    core.hyp_run(ctx, case_strategy(), lambda c: check(ctx, env, c), kw["examples"], chunk=500)
+    chunk = 200 if ctx.tier == "quick" else 2000
+    # the first chunk always runs (a slow start on a loaded machine must not make the run vacuous);
+    # the wall-clock guard applies to everything after it
+    deadline, ctx.deadline = ctx.deadline, None
+    done = core.hyp_run(ctx, case_strategy(), lambda c: check(ctx, env, c), min(chunk, kw["examples"]), chunk=chunk, seed_salt=7)
+    ctx.deadline = deadline
+    core.hyp_run(ctx, case_strategy(), lambda c: check(ctx, env, c), kw["examples"] - done, chunk=chunk)
 
 
 def replay(ctx, case):
